@@ -124,6 +124,13 @@ def noSuffixClash (docs : List J) : Bool :=
   let ids := docs.flatMap opIds
   ids.all fun y => ids.all fun x => !mixinSuffixOf x y
 
+/-- the operation ids that end up in the merged document before any renaming: those of the path items
+    that win (a path item of a mixin that is skipped because the path already exists contributes none) -/
+def mergedIds (docs : List J) : List String :=
+  let paths := (docs.flatMap fun d => (Doc.pathItems d).map (·.1)).eraseDups
+  (paths.filterMap fun p => firstWins docs "paths" p).flatMap fun pi =>
+    (Doc.methods.filterMap fun m => (pi.get? m).map (·.getStr "operationId")).filter (· ≠ "")
+
 /-- the clauses of C18 that a result violates (given the hypotheses hold on `docs`) -/
 def failedIdClauses (docs : List J) (result : J) : List String :=
   (if (opIds result).Nodup then [] else ["ids:duplicate"]) ++
@@ -138,7 +145,7 @@ def failedIdClauses (docs : List J) (result : J) : List String :=
             | some fo, some ro =>
               let fid := fo.getStr "operationId"; let rid := ro.getStr "operationId"
               if fid = "" then rid = ""
-              else rid = fid || (mixinSuffixOf fid rid && (docs.flatMap opIds).count fid > 1)
+              else rid = fid || (mixinSuffixOf fid rid && (mergedIds docs).count fid > 1)
             | none, none => true
             | _, _ => false
         | _, _ => true)
